@@ -41,6 +41,7 @@ type c15Case struct {
 	User   string   `json:"user"`
 	VerifyOnly bool `json:"gateway_does_not_issue_user_tokens,omitempty"` // real binary: EnableUserToken false, keys configured: /tokeninfo still verifies under exactly these keys
 	LongKey bool    `json:"long_signing_key,omitempty"` // sign-and-encrypt mode with a 64-character signing key (long enough for HS384/HS512, which must still be refused)
+	ShortKey int    `json:"short_signing_key_length,omitempty"` // function level: a signing key of that many characters is configured (too short for HS256): nothing can be minted, and nothing - an unsigned token least of all - may be accepted
 	Reqs   []c15Req `json:"requests"`
 }
 
@@ -59,6 +60,9 @@ var c15Kinds = []string{"sig-hs384", "sig-hs512", "minted", "minted", "built", "
 func genC15(t *rapid.T) c15Case {
 	c := c15Case{Signed: rapid.Bool().Draw(t, "signed")}
 	c.LongKey = c.Signed && rapid.IntRange(0, 2).Draw(t, "longKey") == 0
+	if c.Signed && !c.LongKey && rapid.IntRange(0, 5).Draw(t, "shortKey") == 0 {
+		c.ShortKey = rapid.SampledFrom([]int{6, 16, 31}).Draw(t, "shortKeyLen")
+	}
 	c.VerifyOnly = rapid.IntRange(0, 3).Draw(t, "verifyOnly") == 0
 	c.User = rapid.SampledFrom([]string{"alice.liddell", "bob@example.com", "Ünïcødé-üser-名前", "user with spaces", strings.Repeat("long-user-", 12), "x", "victim.user@example.org",
 		strings.Repeat("very-long-user-name.", 10), strings.Repeat("u", 256) + "@example.org", strings.Repeat("dc=example,", 29) + "cn=u",
@@ -254,6 +258,9 @@ func runC15(c c15Case) *Violation {
 	if c.LongKey {
 		c15CurSignKey = c15SignKey + c15SignKey
 	}
+	if c.ShortKey > 0 {
+		c15CurSignKey = c15SignKey[:c.ShortKey]
+	}
 	if c.Signed {
 		security.UserSigningKey = []byte(c15CurSignKey)
 	} else {
@@ -263,9 +270,17 @@ func runC15(c c15Case) *Violation {
 		now := time.Now()
 		tok, err := c15Build(r.Tok, c, now)
 		if err != nil {
+			if c.ShortKey > 0 {
+				continue // nothing can be signed with that key (by the gateway, or by the library the token family is built with)
+			}
 			return viol("c15/mint-error", "request %d: cannot mint: %v", i, err)
 		}
 		verdict, reason, sub := c15Verdict(tok, c.Signed, now)
+		if c.ShortKey > 0 && verdict == mustAccept {
+			// HMAC-SHA256 needs a key of at least 32 bytes: refusing what was signed with the short key is right, so is
+			// accepting it; what the short key must never do is switch the signature requirement off (other verdicts stay)
+			verdict, reason = unspec, "signing key too short for HS256"
+		}
 		// function level
 		claims, uerr := security.UserInfo(context.Background(), tok)
 		// endpoint level
@@ -297,7 +312,7 @@ func runC15(c c15Case) *Violation {
 			}
 			continue
 		}
-		if r.Tok.Kind == "minted" && verdict != mustAccept {
+		if r.Tok.Kind == "minted" && verdict != mustAccept && c.ShortKey == 0 {
 			return viol("c15/minted-not-valid", "the token the gateway minted for this user is not a valid token of the configured mode and keys by the reference (%s): %s", reason, desc)
 		}
 		leak := len([]rune(c.User)) >= 6 && (strings.Contains(body, c.User) || strings.Contains(body, jsonEscaped(c.User)))
